@@ -467,6 +467,7 @@ func ObservePre(dbPath, metaL0 string, ps int, d *Dict) PreState {
 	if best != "" {
 		if fh, err := os.Open(filepath.Join(metaL0, best)); err == nil {
 			p.Last = DecodeLTX(fh, 0, ps, d)
+			p.Last.TS = 0 // not used by the binding; absolute ms would overflow TLC's 32-bit integers
 			fh.Close()
 			p.LastOK = p.Last.Err == "none"
 			p.Pos = p.Last.Max
